@@ -1,5 +1,4 @@
-import SciVerif.Drive.Util
+import SciVerif.Drive.C01
 open Lean SciVerif.Drive
 
-/-- C01 model driver: not built yet. -/
-def main : IO Unit := serve (fun _ => throw "C01: no model yet")
+def main : IO Unit := serve SciVerif.C01.Drive.handle
